@@ -9,7 +9,7 @@ export CARGO_TARGET_DIR=$WT/target CARGO_NET_OFFLINE=true
 cd $WT || exit 2
 git status --short | grep -v MUTATION | grep -v '^??' 
 echo "== baseline with the change"
-cargo nextest run --workspace --no-fail-fast --tool-config-file pb:/w/lib/nextest.toml --profile pb --test-threads 6 --offline -j 8 > $WT/MUTATION/baseline.log 2>&1
+cargo nextest run --workspace --no-fail-fast --tool-config-file pb:/w/lib/nextest.toml --profile pb --test-threads 6 --offline --build-jobs 8 > $WT/MUTATION/baseline.log 2>&1
 python3 - <<PY
 import json, xml.etree.ElementTree as ET
 b=json.load(open('/root/.vp/BASELINE.json'))
